@@ -5,6 +5,7 @@ import (
 	"net/http"
 	"sort"
 	"strings"
+	"sync"
 	"time"
 
 	"verif/harness/internal/devx"
@@ -173,6 +174,45 @@ func c10Scenarios() []c10Scenario {
 
 var c10Markers = []string{"alice@example.com", "Alice Liddell", "Liddell", "u-alice", "bob@example.com"}
 
+// c10Recovery: after the faulted request, the same request is sent again to the same provider with storage healthy.
+// It must get the fault-free outcome class again (nothing of the failure may stick to the provider instance).
+func c10Recovery(sc c10Scenario, plan []c10Fault, baseline string) (string, []string) {
+	w, req := sc.Build()
+	for _, f := range plan {
+		w.Store.FaultAt(f.Op, f.Occ, f.Kind)
+	}
+	w.Do(req)
+	_, req2 := sc.Build()
+	if strings.HasPrefix(sc.Name, "callback-") && !strings.Contains(sc.Name, "unknown") {
+		// the rebuilt request names the record of a fresh world; both worlds number their records identically
+	}
+	rep := w.Do(req2)
+	if rep.Panic != "" {
+		return "panic", []string{"panic-on-the-request-after-a-storage-failure"}
+	}
+	m := obs.Decode(rep)
+	class := fmt.Sprintf("http-%d", rep.Status)
+	switch {
+	case m.Success():
+		class = "success"
+	case m.Root != nil && (m.Root.Local == "Response" || m.Root.Local == "LogoutResponse" || m.Root.Local == "Envelope"):
+		class = "saml-non-success"
+	case rep.Status >= 500:
+		class = "http-5xx"
+	case rep.Status == 303:
+		class = "redirect-to-login"
+	case m.Root != nil && m.Root.Local == "EntityDescriptor":
+		class = "metadata-200"
+		if m.Root.Child("Signature") != nil {
+			class = "metadata-200-signed"
+		}
+	}
+	if class != baseline {
+		return class, []string{"request-after-a-transient-storage-failure-does-not-get-the-fault-free-outcome"}
+	}
+	return class, nil
+}
+
 type c10Obs struct {
 	Calls   []world.Call
 	Fired   []string
@@ -293,7 +333,7 @@ func runC10(ctx Ctx) int {
 	world.PinClock()
 	run := ev.NewRun("C10")
 	run.Level = "fault_enumeration"
-	run.Rule = "for each of the endpoint scenarios (SSO x4, callback x {POST, Redirect} x {done, pending, unknown id} + unusable configured algorithms, logout, attribute query x2, metadata with signing off/on/unusable algorithm, certificate, ready, healthz) the fault-free run records the ordered storage call trace; every call occurrence x every applicable fault kind (returned error, context deadline / cancellation error; user-info: error after some setters were already called; for the key getters: nil record, key without certificate, certificate without key, empty certificate, garbage certificate, zero key, certificate of another key) is injected singly, and for every run that continues past the fault every later call occurrence is faulted too (all pairs; thorough: triples); traces are re-recorded on every run. A case is distinct by (scenario, fault plan)"
+	run.Rule = "for each of the endpoint scenarios (SSO x4, callback x {POST, Redirect} x {done, pending, unknown id} + unusable configured algorithms, logout, attribute query x2, metadata with signing off/on/unusable algorithm, certificate, ready, healthz) the fault-free run records the ordered storage call trace; every call occurrence x every applicable fault kind (returned error, context deadline / cancellation error; user-info: error after some setters were already called; for the key getters: nil record, key without certificate, certificate without key, empty certificate, garbage certificate, zero key, certificate of another key) is injected singly, and for every run that continues past the fault every later call occurrence is faulted too (all pairs; thorough: triples); traces are re-recorded on every run; after every single fault the same request is sent again to the same provider with storage healthy and must get the fault-free outcome. A case is distinct by (scenario, fault plan)"
 	run.Assume = []string{"garbage certificate bytes and a zero rsa.PrivateKey are outside the statement's list of failures: for them only the no-panic and no-usable-Success clauses are applied", "faults are injected at the storage interface only"}
 	scs := c10Scenarios()
 	byName := map[string]c10Scenario{}
@@ -330,11 +370,29 @@ func runC10(ctx Ctx) int {
 	}
 	complete := true
 	var fired, notFired int64
+	baselines := map[string]string{}
+	var bmu sync.Mutex
 	for depth := 0; depth <= maxDepth && len(level) > 0; depth++ {
 		next := make([][]job, len(level))
 		_, ok := parallel(len(level), deadline, func(i int) {
 			j := level[i]
 			o := c10Run(j.sc, j.plan)
+			if len(j.plan) == 0 {
+				bmu.Lock()
+				baselines[j.sc.Name] = o.Class
+				bmu.Unlock()
+			}
+			if len(j.plan) == 1 && len(o.Fired) == 1 {
+				bmu.Lock()
+				base := baselines[j.sc.Name]
+				bmu.Unlock()
+				rc, rcl := c10Recovery(j.sc, j.plan, base)
+				run.Evaluations.Add(1)
+				run.Outcome(j.sc.Kind + "/recovery/" + rc)
+				for _, c := range rcl {
+					run.Violate(c, j.sc.Name, []string{"scenario=" + j.sc.Name, fmt.Sprintf("fault=%s#%d:%s", j.plan[0].Op, j.plan[0].Occ, j.plan[0].Kind), "then-same-request-again"}, map[string]any{"got": rc, "fault_free": base}, c10Replay{j.sc.Name, j.plan})
+				}
+			}
 			run.Evaluations.Add(1)
 			run.Transitions.Add(int64(len(o.Calls)))
 			run.Outcome(fmt.Sprintf("%s/faults=%d/%s", j.sc.Kind, len(o.Fired), o.Class))
